@@ -504,6 +504,53 @@ example : ∃ t, TReach (TpcWitness.ops false) TpcWitness.needs tpcMarksSuspend 
   have h3 := TReach.resumed h2 (Or.inr (fun _ => by decide))
   exact ⟨_, h3, by decide, by decide, by decide⟩
 
+/-! ### the daemon thread processes resumes (every back-end, every threading mode) -/
+
+/-- MHD_select, MHD_poll_all, MHD_poll_listen_socket and MHD_epoll call resume_suspended_connections() in every cycle before
+    they block, whatever the threading mode: a top-level statement of the function, before the blocking call, with no operand
+    that depends on thread-per-connection evaluated before it (regenerated from daemon.c; false — and this file does not
+    compile — e.g. when the call is moved behind `! MHD_D_IS_USING_THREAD_PER_CONN_ (daemon) &&`, seeded change C06_7) -/
+theorem code_backends_resume_every_cycle :
+    selectResumesEveryCycle = true ∧ pollAllResumesEveryCycle = true ∧ pollListenResumesEveryCycle = true ∧
+    epollResumesEveryCycle = true := by decide
+
+/-- **The daemon thread's cycle processes resumes.**  Thread-per-connection, select() or poll() back-end: after
+    MHD_resume_connection on a suspended connection, the next cycle of the daemon thread has made the connection active
+    again and cleared the mark … -/
+theorem daemon_cycle_processes_resumes (b : TBackend) {ths : List (TThread W)} {th : TThread W} (hm : th ∈ ths)
+    (hr : th.resuming = true) (hs : th.t.wh = .susp) :
+    ∃ th' ∈ tpcDaemonCycle b ths, th'.t = tpcResumed th.t ∧ th'.t.wh = .active ∧ th'.resuming = false := by
+  have hb : daemonResumes b = true := by cases b <;> decide
+  unfold tpcDaemonCycle; rw [hb]
+  exact ⟨_, tpcDaemonCycle_resumes hm hr, rfl, tpcResumed_active hs, rfl⟩
+
+/-- … and (with `tpc_resume_is_served`) its thread, which has noticed the suspension, passes it through handle_idle before
+    it blocks again: **a resume request is served**. -/
+theorem tpc_resume_request_is_served (ops : Ops W) (b : TBackend) {ths : List (TThread W)} {th : TThread W} (hm : th ∈ ths)
+    (hr : th.resuming = true) (hs : th.t.wh = .susp) (hc : th.t.c.loc.st ≠ stClosed) (hw : th.t.wasSuspended = true) :
+    ∃ th' ∈ tpcDaemonCycle b ths, th'.t.wh = .active ∧
+      ∃ evs, (tpcHead ops th'.t).1.log = evs ++ th.t.log ∧ Ev.idle th.t.c.id ∈ evs := by
+  obtain ⟨th', hm', e, ha, _⟩ := daemon_cycle_processes_resumes b hm hr hs
+  refine ⟨th', hm', ha, ?_⟩
+  rw [e]
+  exact tpc_resume_is_served ops tpcRechecksSuspend tpcMarksSuspend hc hs hw
+
+/-- **A daemon thread that does not call resume_suspended_connections leaves the connection suspended for ever**: its thread
+    wakes from the bounded wait, finds `suspended` still set and waits again, for every number of rounds — no reply, no close. -/
+theorem deaf_daemon_never_resumes (ops : Ops W) (recheck early : Bool) (n : Nat) (th : TThread W) (hs : th.t.wh = .susp)
+    (hc : th.t.c.loc.st ≠ stClosed) :
+    (tpcDeafRounds ops recheck early n th).t.wh = .susp ∧ (tpcDeafRounds ops recheck early n th).resuming = th.resuming :=
+  tpc_never_resumed ops recheck early n th hs hc
+
+/-- Non-vacuity: the suspended, noticed thread of the witness instance with a resume request: one daemon cycle (either
+    back-end) and the thread's next loop head run handle_idle; 100 rounds of a deaf daemon leave it suspended. -/
+example : ∃ t, tpcRun (TpcWitness.ops false) true true TpcWitness.t0 [.iter true false false, .iter false false false] = some t ∧
+    t.wh = .susp ∧ t.wasSuspended = true ∧
+    (∀ b, ((tpcDaemonCycle b [{ t := t, resuming := true }]).map (fun th => (th.t.wh, th.resuming))) = [(.active, false)]) ∧
+    (tpcDeafRounds (TpcWitness.ops false) true true 100 { t := t, resuming := true }).t.wh = .susp := by
+  refine ⟨_, rfl, by decide, by decide, fun b => by cases b <;> decide, ?_⟩
+  exact (tpc_never_resumed _ true true 100 _ (by decide) (by decide)).1
+
 /-! ## pipelined requests: buffered input is work
 
   After a completely sent reply on a kept-alive connection the read buffer may already hold the next request.
